@@ -271,7 +271,10 @@ def h_fresh_delivery(cfg, v, pre):
 def run_history(variant, hist):
     vs = []
     case = {"variant": variant, "history": hist}
-    p, amps, mc = h_build(variant)
+    try:
+        p, amps, mc = h_build(variant)
+    except Exception as e:
+        return [C.viol("macro-raises", {"exc": type(e).__name__, "kind": "history-setup"}, {"error": repr(e)[:200]}, case)]
     for step, op in enumerate(hist):
         k = op["op"]
         if k == "link":
